@@ -34,6 +34,8 @@ type c13Cell struct {
 	Filter    string `json:"filter"`
 	BodySeed  int64  `json:"bodySeed"`
 	Cacheable bool   `json:"cacheable"`
+	// Reload: the response goes through its persisted form (written to a store, read back) before it is served
+	Reload bool `json:"reload,omitempty"`
 }
 
 func c13Body(size int, seed int64) []byte {
@@ -109,6 +111,20 @@ func execC13(cell c13Cell) *vstat.Outcome {
 		}
 	}
 	storedGz, storedBr, storedRaw := resp.GzipBody, resp.BrBody, resp.RawBody
+	if cell.Reload {
+		data, err := resp.Bytes()
+		if err != nil {
+			out.Violate("C09", "encode", "Bytes failed: %v", err)
+			return out
+		}
+		back := &cache.HTTPResponse{}
+		if err := back.FromBytes(data); err != nil {
+			out.Violate("C09", "roundtrip", "FromBytes(Bytes(response)) failed: %v", err)
+			return out
+		}
+		resp = back
+		out.Class("served_after_a_store_round_trip")
+	}
 	typeOK := filter.MatchString(cell.CT)
 
 	if cell.Cacheable {
@@ -274,6 +290,7 @@ func TestC13Table(t *testing.T) {
 							if stored == 8 {
 								cell.Stored, cell.Cacheable = 1, true
 							}
+							cell.Reload = (cell.BodySeed/2)%3 == 0
 							if !vstat.RunOne(t, rec, cell, execC13(cell)) {
 								return
 							}
